@@ -30,6 +30,8 @@ func runC15(c *Ctx) {
 	r.Rule("C15.R3", "every add is preceded, within its iteration, by remoteCodec.RTCPFeedback = rtcpFeedbackIntersection(localCodec.RTCPFeedback, remoteCodec.RTCPFeedback) with localCodec the match result for that remote codec; rtcpFeedbackIntersection appends an element of one operand only under equality of both Type and Parameter with an element of the other", 7)
 	r.Rule("C15.R4", "getCodecsByKind and getCodecByPayload over (kind, negotiatedVideo, negotiatedAudio): a registered list is consulted only when its kind is not negotiated; negotiated lists are consulted before registered ones; the returned kind is the kind of the list that produced the codec", 21)
 	r.Rule("C15.R6", "the H.264 profile comparison behind an exact match (profileLevelIDMatches), tabulated over decodability, length and byte values of both profile-level-ids, is true exactly when both decode to at least two bytes and agree on profile_idc and profile-iop (bytes 0 and 1); the level byte is ignored (RFC 6184)", 16)
+	r.Rule("C15.R7", "an RTX is matched only with its primary: inside matchRemoteCodec's apt branch every return whose match type is not the constant codecMatchNone is dominated by a branch establishing aptMatch != codecMatchNone (the apt payload type was found among the codecs already matched)", 1)
+	r.Rule("C15.R8", "same rule as C10.R2: filterUnattachedRTX (the filter between a transceiver's preferences and the codecs it uses/announces) removes every RTX whose primary is absent - scan from the end, element i tested against the same list, removed exactly when isRTX and not primaryExists", 10)
 	r.Rule("C15.R5", "codecParametersFuzzySearch: Exact is returned only on fmtp.Parse(needle).Match(fmtp.Parse(c)) for the returned haystack element c; Partial only after the exact scan has completed, under EqualFold(mime) and ClockRateEqual and ChannelsEqual of c and needle, returning c; every other return is None", 4)
 	r.NotCovered = append(r.NotCovered,
 		"apt rewriting in matchRemoteCodec (which local RTX a remote RTX is matched against)",
@@ -47,6 +49,11 @@ func runC15(c *Ctx) {
 	c15R4(c, "C15.R4")
 	c15R5(c, "C15.R5")
 	c15R6(c, "C15.R6")
+	c15R7(c) // c15d.go
+	if filter, prim := c.mustFunc("C15.R8", "", "filterUnattachedRTX"), c.mustFunc("C15.R8", "", "primaryPayloadTypeForRTXExists"); filter != nil && prim != nil {
+		c10R2Filter(c, "C15.R8", filter, prim) // c10.go
+		c10R2Primary(c, "C15.R8", prim)
+	}
 }
 
 // c15Upd holds the resolved anchors of updateFromRemoteDescription.
